@@ -26,7 +26,8 @@ fn transform(src: &str) -> Option<String> {
             out.push_str(&format!("{indent}#[allow(unused_imports)]\n{indent}use crate::threads::shim::Mutex;\n"));
             replaced += 1;
         } else {
-            out.push_str(&line.replace("crate::", "rotala::"));
+            // the reqwest transport of the HTTP clients becomes the simulated one (sim/src/simhttp.rs)
+            out.push_str(&line.replace("crate::", "rotala::").replace("reqwest::Client", "crate::simhttp::Client"));
             out.push('\n');
         }
     }
